@@ -175,7 +175,9 @@ func devCmd(args []string) {
 		}
 		allRs = append(allRs, rs...)
 	}
-	solveAll(allRs, *sec, false, 8)
+	if os.Getenv("GVC_NOSOLVE") == "" {
+		solveAll(allRs, *sec, false, 8)
+	}
 	nOK := 0
 	for _, r := range allRs {
 		if r.Status == "unsat" {
@@ -188,6 +190,11 @@ func devCmd(args []string) {
 			if r.Status != "sat" {
 				fmt.Printf("     %s\n", r.Output)
 			}
+		}
+		if d := os.Getenv("GVC_DUMPDIR"); d != "" {
+			// every script, one file per obligation (used to check that script generation is deterministic)
+			os.MkdirAll(d, 0755)
+			os.WriteFile(filepath.Join(d, strings.NewReplacer("/", "_", " ", "_").Replace(r.Name)+".smt2"), []byte(r.Script), 0644)
 		}
 		if *dump != "" && strings.Contains(r.Name, *dump) {
 			os.WriteFile("/tmp/gvc-dump.smt2", []byte(r.Script), 0644)
